@@ -125,7 +125,8 @@ struct CG {
     uint16_t param_count;
 
     /* Function table (populated in pass 1) */
-    FnEntry functions[MAX_FUNCTIONS];
+    FnEntry *functions;      /* grows on demand (fn_table_reserve) */
+    int fn_cap;
     uint16_t fn_count;
 
     /* Loop context stack */
@@ -241,6 +242,17 @@ static int16_t local_find(CG *cg, const char *name) {
             return (int16_t)cg->locals[i].slot;
     }
     return -1;
+}
+
+/* Make room for one more entry of the name -> function index table */
+static bool fn_table_reserve(CG *cg) {
+    if (cg->fn_count < cg->fn_cap) return true;
+    int cap = cg->fn_cap ? cg->fn_cap * 2 : MAX_FUNCTIONS;
+    FnEntry *grown = realloc(cg->functions, sizeof(FnEntry) * (size_t)cap);
+    if (!grown) return false;
+    cg->functions = grown;
+    cg->fn_cap = cap;
+    return true;
 }
 
 static uint16_t local_add(CG *cg, const char *name, int line) {
@@ -2574,7 +2586,7 @@ static void compile_stmt(CG *cg, ASTNode *node) {
             fn.name_idx = name_idx;
             fn.arity = (uint16_t)node->as.function.param_count;
             fn_idx = (int32_t)nvm_add_function(cg->module, &fn);
-            if (cg->fn_count < MAX_FUNCTIONS) {
+            if (fn_table_reserve(cg)) {
                 cg->functions[cg->fn_count].name = (char *)name;
                 cg->functions[cg->fn_count].fn_idx = (uint32_t)fn_idx;
                 cg->fn_count++;
@@ -2809,7 +2821,7 @@ CodegenResult codegen_compile(ASTNode *program, Environment *env,
 
             uint32_t idx = nvm_add_function(cg.module, &fn);
 
-            if (cg.fn_count < MAX_FUNCTIONS) {
+            if (fn_table_reserve(&cg)) {
                 cg.functions[cg.fn_count].name = (char *)name;
                 cg.functions[cg.fn_count].fn_idx = idx;
                 cg.fn_count++;
@@ -2941,7 +2953,7 @@ CodegenResult codegen_compile(ASTNode *program, Environment *env,
                             fn.name_idx = name_idx;
                             fn.arity = (uint16_t)mitem->as.function.param_count;
                             idx = nvm_add_function(cg.module, &fn);
-                            if (cg.fn_count < MAX_FUNCTIONS) {
+                            if (fn_table_reserve(&cg)) {
                                 cg.functions[cg.fn_count].name = (char *)fname;
                                 cg.functions[cg.fn_count].fn_idx = idx;
                                 cg.fn_count++;
@@ -2952,7 +2964,7 @@ CodegenResult codegen_compile(ASTNode *program, Environment *env,
                          * shares the SAME fn_idx, so calls through it reach the body
                          * that compile_function fills in under the original name. */
                         if (use_name != fname && fn_find(&cg, use_name) < 0 &&
-                            cg.fn_count < MAX_FUNCTIONS) {
+                            fn_table_reserve(&cg)) {
                             cg.functions[cg.fn_count].name = (char *)use_name;
                             cg.functions[cg.fn_count].fn_idx = idx;
                             cg.fn_count++;
@@ -2973,7 +2985,7 @@ CodegenResult codegen_compile(ASTNode *program, Environment *env,
                                     break;
                                 }
                             }
-                            if (!qalready && cg.fn_count < MAX_FUNCTIONS) {
+                            if (!qalready && fn_table_reserve(&cg)) {
                                 cg.functions[cg.fn_count].name = strdup(qname);
                                 cg.functions[cg.fn_count].fn_idx = idx; /* same fn_idx! */
                                 cg.fn_count++;
@@ -3142,7 +3154,7 @@ CodegenResult codegen_compile(ASTNode *program, Environment *env,
 
                 if (mitem->type == AST_FUNCTION && !mitem->as.function.is_extern) {
                     const char *fname = mitem->as.function.name;
-                    if (fn_find(&cg, fname) < 0 && cg.fn_count < MAX_FUNCTIONS) {
+                    if (fn_find(&cg, fname) < 0 && fn_table_reserve(&cg)) {
                         uint32_t ni = nvm_add_string(cg.module, fname, (uint32_t)strlen(fname));
                         NvmFunctionEntry fn = {0};
                         fn.name_idx = ni;
@@ -3353,6 +3365,7 @@ CodegenResult codegen_compile(ASTNode *program, Environment *env,
 
     free(cg.code);
     free(cg.locals);
+    free(cg.functions);
 
     if (cg.had_error) {
         result.ok = false;
